@@ -120,6 +120,30 @@ def setitem_invalidation(ctx, keys=None, why=""):
                     elif missing:
                         notes.append((n, missing))
 
+    # the documented don't-care: once `key == 'range_x'`, plateau search on
+    # and an unchanged upper bound are established, the results may stay
+    for n in cfg.nodes:
+        if n.kind != "test":
+            continue
+        for pol_, lab_ in ((True, "true"), (False, "false")):
+            own_ats = list(atoms(n.ast, pol_))
+            ats = own_ats + [a for a in conditions_at(n.ast)]
+            tx = {(a.text.replace(" ", ""), a.pol) for a in ats}
+            is_rx = (f"{keyv}=='range_x'", True) in tx
+            edl = any(pol and t in ("self['optimal_fit_edelta']",
+                                    "self.get('optimal_fit_edelta',False)",
+                                    "self.get('optimal_fit_edelta')")
+                      for t, pol in tx)
+            hi = any(pol and t in (
+                f"max(self['range_x'])==max({valv})",
+                f"max({valv})==max(self['range_x'])",
+                f"np.max(self['range_x'])==np.max({valv})",
+                f"np.max({valv})==np.max(self['range_x'])")
+                for t, pol in tx)
+            own = {a.text.replace(" ", "") for a in own_ats if a.pol}
+            if is_rx and edl and hi and any("max(" in t for t in own):
+                eq_edges.add((n.id, lab_))
+
     def edge_ok(s, t, lab):
         if (s, lab) in eq_edges:
             return False
@@ -127,10 +151,32 @@ def setitem_invalidation(ctx, keys=None, why=""):
             return False
         return True
 
+    def dont_care(node):
+        """path condition: key is range_x, the plateau search is on and the
+        upper bound is unchanged - the lower bound is then irrelevant for
+        the results, which may stay"""
+        conds = conditions_at(node)
+        texts = {(a.text, a.pol) for a in conds}
+        is_rx = (f"{keyv} == 'range_x'", True) in texts
+        edelta = any(pol and t in ("self['optimal_fit_edelta']",
+                                   "self.get('optimal_fit_edelta', False)",
+                                   "self.get('optimal_fit_edelta')")
+                     for t, pol in texts)
+        same_hi = any(a.pol and a.text.replace(" ", "") in (
+            f"max(self['range_x'])==max({valv})",
+            f"max({valv})==max(self['range_x'])",
+            f"np.max(self['range_x'])==np.max({valv})",
+            f"np.max({valv})==np.max(self['range_x'])") for a in conds)
+        return is_rx and edelta and same_hi
+
     bad_store = False
     for st in stores:
         r = cfg.reach([gate.id], avoid=resets, via_first=("true",),
                       edge_ok=edge_ok)
+        if st.id in r and dont_care(st.ast):
+            ctx.ok(st.ast, f"store {norm(st.ast)[:40]} under the documented "
+                   "don't-care (range_x[0] while the plateau search is on)")
+            continue
         if st.id in r:
             bad_store = True
             # find a witness path for the report
@@ -157,27 +203,18 @@ def setitem_invalidation(ctx, keys=None, why=""):
     for rn in rets:
         if rn.id not in region:
             continue
-        # is a store before this return on every path? then handled above
-        conds = conditions_at(rn.ast)
-        texts = {(a.text, a.pol) for a in conds}
-        is_rx = (f"{keyv} == 'range_x'", True) in texts
-        edelta = any(pol and t in ("self['optimal_fit_edelta']",
-                                   "self.get('optimal_fit_edelta', False)",
-                                   "self.get('optimal_fit_edelta')")
-                     for t, pol in texts)
-        same_hi = any(a.pol and a.text.replace(" ", "") in (
-            f"self['range_x'][1]=={valv}[1]",
-            f"{valv}[1]==self['range_x'][1]") for a in conds)
+        # a store before this return on every path: handled above
         passes_store = not cfg.reach([gate.id], avoid={s.id for s in stores},
                                      via_first=("true",)) & {rn.id}
         if passes_store:
             continue
-        ctx.check(is_rx and edelta and same_hi, rn.ast,
-                  "return without storing (documented don't-care)",
-                  "FitProperties.__setitem__ ignores a new settings value "
-                  "outside the documented don't-care (range_x[0] while the "
-                  "plateau search is on and range_x[1] is unchanged): the "
-                  "stored setting keeps its old value")
+        ctx.fail(rn.ast, "return without storing the requested value",
+                 "FitProperties.__setitem__ returns without storing the new "
+                 "value of a settings key ("
+                 + " and ".join(repr(a) for a in conditions_at(rn.ast))[:160]
+                 + "): the request is dropped, the stored setting keeps its "
+                 "old value and later fits (e.g. after the plateau search "
+                 "is switched off) use a range nobody asked for")
     # the model_key branch clears the initial parameters
     clears = [n for n in cfg.nodes if n.kind == "stmt"
               and isinstance(n.ast, ast.Assign)
